@@ -5,13 +5,13 @@ import (
 	"net/http"
 
 	"github.com/bitcoin-sv/block-headers-service/config"
+	"github.com/bitcoin-sv/block-headers-service/domains"
 	"github.com/bitcoin-sv/block-headers-service/internal/chaincfg"
 	"github.com/bitcoin-sv/block-headers-service/internal/zzverif/hstore"
 	"github.com/bitcoin-sv/block-headers-service/internal/zzverif/vh"
 	"github.com/bitcoin-sv/block-headers-service/internal/zzverif/vhgin"
 	"github.com/bitcoin-sv/block-headers-service/metrics"
 	"github.com/bitcoin-sv/block-headers-service/notification"
-	"github.com/bitcoin-sv/block-headers-service/domains"
 	"github.com/bitcoin-sv/block-headers-service/service"
 	"github.com/bitcoin-sv/block-headers-service/transports/http/endpoints"
 	peerpkg "github.com/bitcoin-sv/block-headers-service/transports/p2p/peer"
@@ -43,6 +43,12 @@ type App struct {
 
 // New wires services and routes like cmd/main.go: metrics.Register, endpoints.SetupRoutes, websocket entrypoint.
 func New(db *sqlx.DB, httpCfg *config.HTTPConfig, maxTries int, excess int) *App {
+	return NewWithHasher(db, httpCfg, maxTries, excess, hasher{})
+}
+
+// NewWithHasher is New with the block hasher of the chain service supplied by the harness (an
+// arbitrary hash per submitted header instead of the real double SHA-256).
+func NewWithHasher(db *sqlx.DB, httpCfg *config.HTTPConfig, maxTries int, excess int, bh service.BlockHasher) *App {
 	log := vh.Logger()
 	repos := hstore.Repos(db)
 	client := &NoClient{}
@@ -52,7 +58,7 @@ func New(db *sqlx.DB, httpCfg *config.HTTPConfig, maxTries int, excess int) *App
 		Headers:     service.NewHeaderService(repos, nil, log),
 		Merkleroots: service.NewMerklerootsService(repos, &config.MerkleRootConfig{MaxBlockHeightExcess: excess}, log),
 		Notifier:    notifier,
-		Chains:      service.NewChainsService(repos, &chaincfg.Params{}, log, hasher{}, notifier),
+		Chains:      service.NewChainsService(repos, &chaincfg.Params{}, log, bh, notifier),
 		Tokens:      service.NewTokenService(repos, httpCfg.AuthToken),
 		Webhooks:    notification.NewWebhooksService(repos.Webhooks, client, log, &config.WebhookConfig{MaxTries: maxTries}),
 		Logger:      log,
